@@ -3,6 +3,9 @@ package engine
 import (
 	"bytes"
 	"fmt"
+	"strings"
+
+	"verif/sim/plan"
 
 	"verif/sim/ref"
 )
@@ -217,6 +220,21 @@ func first4(b []byte) uint32 {
 func (j *judge) judgeCR(ci int) {
 	c := j.out.C[ci]
 	cp := &j.p.CRs[ci]
+	for c != nil && cp != nil {
+		j.judgeCRStream(ci, c, cp)
+		c, cp = c.Next, cp.Next
+	}
+}
+
+func (j *judge) judgeCRStream(ci int, c *COut, cp *plan.CScript) {
+	if c.Panic != "" {
+		first := c.Panic
+		if i := strings.IndexByte(first, '\n'); i > 0 {
+			first = first[:i]
+		}
+		j.add("panic", panicKey(first), "%s", c.Panic)
+		return
+	}
 	if !c.Finished {
 		return
 	}
